@@ -144,6 +144,7 @@ class Path:
         if hasattr(s, 'tls'): p.tls = dict(s.tls)
         if hasattr(s, 'alloc_cnt'): p.alloc_cnt = dict(s.alloc_cnt)
         if hasattr(s, 'tls_dtors'): p.tls_dtors = list(s.tls_dtors)
+        if hasattr(s, 'nnd'): p.nnd = s.nnd
         s.mem, p.mem = s.mem.split(); p.sp = s.sp; p.errno_addr = s.errno_addr
         return p
 
@@ -553,6 +554,7 @@ class Engine:
                 if n > f.symv.get(lb, 0): f.symv[lb] = n
             f.symexit |= g.symexit
         m.nsym = max(p.nsym for p in group) + 1
+        m.nnd = max(getattr(p, 'nnd', 0) for p in group)
         s.merge_alloc_cnt(m, group)
         s.merge_alloc_cnt(m, group)
         s.merge_mem(m, group, conds)
@@ -648,6 +650,7 @@ class Engine:
         m.sp = max(p.sp for p in group)
         m.last = s.join_node(m, [p.last for p in group])
         m.nsym = max(p.nsym for p in group) + 1
+        m.nnd = max(getattr(p, 'nnd', 0) for p in group)
         s.merge_alloc_cnt(m, group)
         return (m, rv)
 
@@ -1512,7 +1515,11 @@ class Engine:
                 s.assumes.append((list(p.pc), z3.BoolVal(False))); return 'end'
             s.assumes.append((list(p.pc), tobool(c)))
             p.pc.append(tobool(c)); return 0
-        if n == 'vf_nondet64': return s.fresh('nd', 64)
+        if n == 'vf_nondet64':
+            v = s.fresh('nd', 64)
+            k = getattr(p, 'nnd', 0); p.nnd = k + 1                 # position of this call along its path (native replay order)
+            s.__dict__.setdefault('nd_info', {})[str(v)] = (list(p.pc), k, v)
+            return v
         if n == 'syscall':
             # the default SchedInterface: syscall(__NR_futex, addr, FUTEX_WAIT|WAKE | FUTEX_PRIVATE_FLAG, val[, timeout])
             if not (is_c(a[0]) and a[0] == 202 and is_c(a[2])): raise Unsupported('syscall other than futex')
@@ -2052,4 +2059,10 @@ class Engine:
             if nm.startswith('nd_') or nm.startswith('sec_') or nm.startswith('nsec_') or nm.startswith('tns_') or nm.startswith('timedout_') or nm.startswith('resumed_'):
                 v = m[d]
                 nd[nm] = v.as_long() if z3.is_bv_value(v) else bool(z3.is_true(v))
-        return dict(events=out, inputs=nd)
+        # nondet inputs actually consumed by this execution, in call order along the executed path
+        seqd = []
+        for name, (pc, k, var) in getattr(s, 'nd_info', {}).items():
+            if all(z3.is_true(m.eval(c, model_completion=True)) for c in pc):
+                seqd.append((k, int(name.rsplit('_', 1)[1]), m.eval(var, model_completion=True).as_long()))
+        seqd.sort()
+        return dict(events=out, inputs=nd, nondet_sequence=[v for _, _, v in seqd])
